@@ -133,11 +133,15 @@ func (a *apiServer) Sync(req *pb.SyncRequest, stream pb.ApiService_SyncServer) e
 	return err
 }
 
+// segment size of the caches of the scenario being run (small, so that transfers cross many segments; large for the
+// scenarios that need more than 10 MiB of log)
+var logSize int64 = 3000
+
 func newChannel(disk bool, dir string) syncer.Channel {
 	if disk {
-		return syncer.NewStoreChannel(syncer.StorerConf{InputId: "verif", Dir: dir, MaxSize: 1 << 30, LogSize: 16 + 3000})
+		return syncer.NewStoreChannel(syncer.StorerConf{InputId: "verif", Dir: dir, MaxSize: 1 << 30, LogSize: 16 + logSize})
 	}
-	return syncer.NewMemoryChannel(syncer.MemoryConf{InputId: "verif", MaxSize: 1 << 30, LogSize: 3000})
+	return syncer.NewMemoryChannel(syncer.MemoryConf{InputId: "verif", MaxSize: 1 << 30, LogSize: logSize})
 }
 
 type writerH struct {
@@ -176,7 +180,7 @@ func populate(ch syncer.Channel, cs cacheSpec) *writerH {
 	}
 	w.Start()
 	f.Feed(aofData(cs.Hist, cs.Left, cs.Right))
-	if !f.WaitDrained(func() bool { return false }, 5*time.Second) {
+	if !f.WaitDrained(func() bool { return false }, 90*time.Second) {
 		hx.Fatal("log writer did not take the data")
 	}
 	waitRange(ch, ids[cs.Hist], cs.Right)
@@ -184,7 +188,7 @@ func populate(ch syncer.Channel, cs cacheSpec) *writerH {
 }
 
 func waitRange(ch syncer.Channel, id string, right int64) {
-	dl := time.Now().Add(5 * time.Second)
+	dl := time.Now().Add(90 * time.Second)
 	for time.Now().Before(dl) {
 		if _, r := ch.GetOffsetRange(id); r >= right {
 			return
@@ -326,7 +330,16 @@ func genScenario(r *hx.Rng, id int) *scenario {
 	}
 	kinds := []string{"empty", "prefix", "equal", "ahead", "collected", "otherid", "otherid-ahead", "otherid-memory"}
 	sc.fkind = kinds[r.Intn(len(kinds))]
+	if r.Chance(6) && sc.leader.RdbSize == 0 {
+		// the follower holds the beginning of the leader's history and is more than 10 MiB behind: it gives its copy up
+		// and continues at the leader's newest offset
+		sc.fkind = "farbehind"
+		sc.leader.Right = a + 10*1024*1024 + int64(1+r.Intn(300000))
+		b = sc.leader.Right
+	}
 	switch sc.fkind {
+	case "farbehind":
+		sc.follower = cacheSpec{Hist: 1, Left: a, Right: a + int64(1+r.Intn(4000))}
 	case "prefix":
 		l := inLeader()
 		sc.follower = cacheSpec{Hist: 1, Left: l, Right: l + int64(r.Intn(int(b-l)+1))}
@@ -440,6 +453,10 @@ func runDirect(sc *scenario, tr *hx.Trace, base string, r *hx.Rng) {
 }
 
 func runScenario(sc *scenario, tr *hx.Trace, base string) {
+	logSize = 3000
+	if sc.fkind == "farbehind" {
+		logSize = 1 << 20
+	}
 	ldir := filepath.Join(base, fmt.Sprintf("l%d", sc.id))
 	fdir := filepath.Join(base, fmt.Sprintf("f%d", sc.id))
 	defer os.RemoveAll(ldir)
